@@ -100,9 +100,11 @@ def opWS (args obs : List String) : P String := do
 /-- `WR <fmt> <op> <a> <b> | code` — storing `a op b` (codes of two operands of the same format, n_frac = 0)
 into the same format with wrap: an n_word-bit register. -/
 def opWR (args obs : List String) : P String := do
-  match args with
-  | [s, n, f, op, a, b] =>
-    let fmt ← pFmt s n f
+  -- `WR s n f op a b [sr nr route]`: operands of format (s, n, f); the result is stored with wrap into a register of
+  -- format (sr, nr, f) (the operands' own format when omitted)
+  let go (s n f op a b sr nr : String) : P String := do
+    let _ ← pFmt s n f
+    let reg ← pFmt sr nr f
     let a ← pInt a
     let b ← pInt b
     let exact ← match op with
@@ -110,13 +112,16 @@ def opWR (args obs : List String) : P String := do
       | "sub" => pure (a - b)
       | "mul" => pure (a * b)
       | _ => throw "WR: op"
-    let model := wrap fmt exact
+    let model := wrap reg exact
     match obs with
     | [c] =>
       match c.toInt? with
-      | some c => pure (reply (decide (c = model)) (Chk.c03 fmt exact c) [toString model])
+      | some c => pure (reply (decide (c = model)) (Chk.c03 reg exact c) [toString model])
       | none => pure (reply false false [toString model])
     | _ => pure (reply false false [toString model])
+  match args with
+  | [s, n, f, op, a, b] => go s n f op a b s n
+  | [s, n, f, op, a, b, sr, nr, _route] => go s n f op a b sr nr
   | _ => throw "WR: arity"
 
 /-- `R5 <fmt> <rounding> <overflow> <carrier> <route> [v...] | [codes]` — C05 directional contracts judged
